@@ -93,6 +93,46 @@ pub fn gen_spec(rng: &mut Rng, o: &GenOpts) -> (Spec, PatClass) {
     // 256-slot blocks (thresholds on the table size, block eviction with every setting)
     let huge = !o.tiny && o.wide_max >= 300 && rng.chance(1, 24);
     let class = if huge { PatClass::Wide } else { class };
+    // very rarely: a handful of enormous patterns, so that per-character / per-state statistics
+    // exceed 16-bit ranges (one unit occurs > 65 536 times) while two other units have close
+    // counts concentrated at opposite ends of the input order
+    if !o.tiny && o.wide_max >= 300 && rng.chance(1, 400) {
+        let n = rng.range(4, 7);
+        let per = 70_000 / n + rng.range(1, 2000);
+        let (b, c) = if variant == Variant::Charwise && rng.chance(1, 2) { ("é", "世") } else { ("b", "c") };
+        let mut pats: Vec<Vec<u8>> = vec![];
+        let close = rng.range(20, 60);
+        for i in 0..n {
+            let mut p = String::new();
+            p.push_str(&format!("{}", (b'k' + i as u8) as char));
+            for _ in 0..per {
+                p.push('a');
+            }
+            // early patterns carry the b's, late ones the c's; totals differ by at most a few
+            let (nb, nc) = if i < n / 2 { (close + rng.below(3), 0) } else { (0, close + rng.below(3)) };
+            for _ in 0..nb {
+                p.push_str(b);
+            }
+            for _ in 0..nc {
+                p.push_str(c);
+            }
+            pats.push(p.into_bytes());
+        }
+        rng.shuffle(&mut pats);
+        let values: Vec<u64> = (0..pats.len() as u64).collect();
+        return (
+            Spec {
+                variant,
+                kind,
+                num_free_blocks: *rng.pick(&NFB_CHOICES),
+                entry: Entry::WithValues,
+                vtype: VType::U32,
+                patterns: pats,
+                values,
+            },
+            PatClass::Long,
+        );
+    }
     let mut set: BTreeSet<Vec<u8>> = BTreeSet::new();
     let small_cp = o.tiny || !rng.chance(o.big_cp_of_8, 8);
     match class {
